@@ -528,6 +528,21 @@ def n13_find(body, log):
         log.append("N13")
 
 
+def n17_unsize(body, log):
+    """N17: the implicit unsizing coercion `&mut X` -> `&mut dyn IdentProvider` in the struct literal field
+    `ident_provider: &mut ident_provider` is made an explicit call of the identity function `verif_unsize_provider`
+    (Verus does not model unsizing; the function's assumed spec is: same object, same abstract state, same future)."""
+    pat = re.compile(r"(ident_provider\s*:\s*)&mut\s+ident_provider\s*,")
+    m = mask(body)
+    hit = pat.search(m)
+    while hit:
+        body = body[:hit.start()] + hit.group(1) + "verif_unsize_provider(&mut ident_provider)," + body[hit.end():]
+        log.append("N17")
+        m = mask(body)
+        hit = pat.search(m)
+    return body
+
+
 RULES = {
     "N1": n1_map_with_mut,
     "N2": n2_for_each,
@@ -540,10 +555,11 @@ RULES = {
     "N12": n12_any_all,
     "N13": n13_find,
     "N14": n14_skip_cloned_collect,
+    "N17": n17_unsize,
 }
 
 # order matters: N8 restructures arms first, N4 then wraps guarded blocks, then closures are inlined
-DEFAULT_ORDER = ["N8", "N4", "N1", "N2", "N14", "N10", "N12", "N13", "N3", "N5"]
+DEFAULT_ORDER = ["N8", "N4", "N1", "N2", "N14", "N10", "N12", "N13", "N3", "N5", "N17"]
 
 
 def normalise(body, rules=None):
